@@ -446,8 +446,9 @@ func (blockID BlockID) Equals(other BlockID) bool {
 		blockID.PartsHeader.Equals(other.PartsHeader)
 }
 
+// Key is used to index votes by block id: both components are length-prefixed, so different block ids never share a key.
 func (blockID BlockID) Key() string {
-	return string(blockID.Hash) + string(wire.BinaryBytes(blockID.PartsHeader))
+	return string(wire.BinaryBytes(blockID.Hash)) + string(wire.BinaryBytes(blockID.PartsHeader))
 }
 
 func (blockID BlockID) WriteSignBytes(w io.Writer, n *int, err *error) {
